@@ -4,6 +4,8 @@ import TmcgProofs.Codec
 import TmcgProofs.Group
 import TmcgProofs.SigmaComplete
 import TmcgProofs.SigmaSound
+import TmcgProofs.VtmfOpen
+import Mathlib.Logic.Equiv.List
 /-
   C03 / C04 for the cut-and-choose proof of stack equality (shuffle and rotation) of
   Tmcg/Model/StackEq.lean, discrete-log encoding.
@@ -195,6 +197,9 @@ theorem ExpRange.fits (hG : ValidGroup G) {ss : StackSecret Int} (h : ExpRange G
 /-- the index component is a bijection of the positions `0 … n-1` -/
 def IsPerm (n : Nat) (ss : StackSecret Int) : Prop := (ss.map Prod.fst).Perm (List.range n)
 
+instance (n : Nat) (ss : StackSecret Int) : Decidable (IsPerm n ss) := by
+  unfold IsPerm; infer_instance
+
 theorem mix_eq_total (hG : ValidGroup G) {S : State} (hS : StateOk G S) (tap : Bool)
     (s : List Card) (ss : StackSecret Int) (hf : FitsAll G ss) :
     vtmfMix S tap s ss = mixStack (maskT G S.h) s ss := by
@@ -312,6 +317,15 @@ theorem eq_of_forall₂_eq {α : Type} {l l' : List α} (h : List.Forall₂ (fun
   induction h with
   | nil => rfl
   | cons h1 _ ih => rw [h1, ih]
+
+theorem eq_of_forall₂_of {α : Type} {R : α → α → Prop} {P Q : α → Prop} {l l' : List α}
+    (h : List.Forall₂ R l l') (hP : ∀ a ∈ l, P a) (hQ : ∀ a ∈ l', Q a)
+    (hR : ∀ a b, R a b → P a → Q b → a = b) : l = l' := by
+  induction h with
+  | nil => rfl
+  | cons h1 _ ih =>
+    rw [hR _ _ h1 (hP _ (by simp)) (hQ _ (by simp)),
+      ih (fun a ha => hP a (by simp [ha])) (fun a ha => hQ a (by simp [ha]))]
 
 /-! ### `find_position` inverts a bijective index component -/
 
@@ -457,8 +471,12 @@ theorem cyclic_comp_inv (q : Int) (A B : StackSecret Int) (hl : A.length = B.len
     simpa using f2
   intro k hk
   have h0 : 0 < B.length := by omega
-  rw [hL k hk, hL 0 h0, hcA _ (hl ▸ (findPosition_getD B hpB k hk).1),
-    hcA _ (hl ▸ (findPosition_getD B hpB 0 h0).1), hl]
+  have fk := (findPosition_getD B hpB k hk).1
+  have f0 := (findPosition_getD B hpB 0 h0).1
+  have ak := hcA (findPosition B k) (by rw [hl]; exact fk)
+  have a0' := hcA (findPosition B 0) (by rw [hl]; exact f0)
+  rw [hL k hk, hL 0 h0, ak, a0', hl]
+  clear ak a0' hL
   generalize (A.map Prod.fst).getD 0 0 = a0
   have h1 := hB k hk
   have h2 := hB 0 h0
@@ -472,7 +490,7 @@ theorem cyclic_comp_inv (q : Int) (A B : StackSecret Int) (hl : A.length = B.len
     rw [h1, Nat.mod_eq_of_lt hk]
   have g2 : b0 + p0 ≡ 0 [MOD n] := by
     show (b0 + p0) % n = 0 % n
-    rw [h2]
+    rw [h2, Nat.zero_mod]
   have g3 : (a0 + p0) % n + k ≡ a0 + p0 + k [MOD n] := (Nat.mod_modEq _ _).add_right k
   refine Nat.ModEq.trans ?_ g3.symm
   apply Nat.ModEq.add_left_cancel' b0
@@ -487,46 +505,89 @@ omit [Fact (Nat.Prime G.p.natAbs)] in
 theorem verifyRound_ok_iff (H : Hash) (St : State) (s s2 : List Card) (cyclic : Bool) (commit : Int)
     (b : Bool) (ss : StackSecret Int) :
     verifyRound H St s s2 cyclic commit b ss = .ok true ↔
-      ss.length = s.length ∧ ∃ s4, vtmfMix St false (if b then s2 else s) ss = .ok s4 ∧
+      ss.length = s.length ∧ (∀ e ∈ ss, e.2.natAbs < St.G.q.natAbs) ∧
+      ∃ s4, vtmfMix St false (if b then s2 else s) ss = .ok s4 ∧
         commitment H s4 = commit ∧ (cyclic = true → isCyclic (ss.map Prod.fst) = true) := by
-  unfold verifyRound
+  have hne : (Except.ok false : Except Err Bool) ≠ .ok true := by
+    intro h; injection h with h; cases h
   by_cases hl : ss.length = s.length
-  · cases hm : vtmfMix St false (if b = true then s2 else s) ss with
-    | error e => simp [hl, hm, bind, Except.bind]
-    | ok s4 =>
-      by_cases hc : commitment H s4 = commit
-      · by_cases hy : cyclic = true ∧ (!isCyclic (ss.map Prod.fst)) = true
-        · have : ¬ (cyclic = true → isCyclic (ss.map Prod.fst) = true) := by
-            intro hcon
-            have := hcon hy.1
-            simp [this] at hy
-          simp [hl, hm, hc, hy, bind, Except.bind, pure, Except.pure, this]
-        · have : cyclic = true → isCyclic (ss.map Prod.fst) = true := by
-            intro h1
-            by_contra h2
-            exact hy ⟨h1, by simpa using h2⟩
-          simp [hl, hm, hc, hy, bind, Except.bind, pure, Except.pure, this]
-      · simp [hl, hm, hc, bind, Except.bind, pure, Except.pure]
-  · simp [hl, bind, Except.bind, pure, Except.pure]
+  swap
+  · have hv : verifyRound H St s s2 cyclic commit b ss = .ok false := by
+      unfold verifyRound; simp [hl, pure, Except.pure]
+    rw [hv]
+    exact ⟨fun h => absurd h hne, fun h => absurd h.1 hl⟩
+  by_cases hr : (ss.any fun e => decide (e.2.natAbs ≥ St.G.q.natAbs)) = true
+  · have hv : verifyRound H St s s2 cyclic commit b ss = .ok false := by
+      unfold verifyRound; simp [hl, hr, pure, Except.pure]
+    rw [hv]
+    refine ⟨fun h => absurd h hne, fun h => ?_⟩
+    exfalso
+    rw [List.any_eq_true] at hr
+    obtain ⟨e, he, h1⟩ := hr
+    have := h.2.1 e he
+    simp only [ge_iff_le, decide_eq_true_eq] at h1
+    omega
+  have hr' : ∀ e ∈ ss, e.2.natAbs < St.G.q.natAbs := by
+    intro e he
+    by_contra hcon
+    exact hr (List.any_eq_true.2 ⟨e, he, by simpa using hcon⟩)
+  cases hm : vtmfMix St false (if b = true then s2 else s) ss with
+  | error e =>
+    have hv : verifyRound H St s s2 cyclic commit b ss = .error e := by
+      unfold verifyRound; simp [hl, hr, hm, bind, Except.bind]
+    rw [hv]
+    refine ⟨fun h => (by cases h), fun h => ?_⟩
+    obtain ⟨-, -, s4, h1, -⟩ := h
+    cases h1
+  | ok s4 =>
+    by_cases hc : commitment H s4 = commit
+    swap
+    · have hv : verifyRound H St s s2 cyclic commit b ss = .ok false := by
+        unfold verifyRound; simp [hl, hr, hm, bind, Except.bind, hc, pure, Except.pure]
+      rw [hv]
+      refine ⟨fun h => absurd h hne, fun h => ?_⟩
+      obtain ⟨-, -, s4', h1, h2, -⟩ := h
+      injection h1 with h1
+      exact absurd (h1 ▸ h2) hc
+    by_cases hy : cyclic = true ∧ (!isCyclic (ss.map Prod.fst)) = true
+    · have hv : verifyRound H St s s2 cyclic commit b ss = .ok false := by
+        unfold verifyRound
+        simp [hl, hr, hm, bind, Except.bind, hc, pure, Except.pure, hy.1]
+        simpa using hy.2
+      rw [hv]
+      refine ⟨fun h => absurd h hne, fun h => ?_⟩
+      obtain ⟨-, -, s4', -, -, h3⟩ := h
+      have := h3 hy.1
+      simp [this] at hy
+    · have hcy : cyclic = true → isCyclic (ss.map Prod.fst) = true := by
+        intro h1
+        by_contra h2
+        exact hy ⟨h1, by simpa using h2⟩
+      have hv : verifyRound H St s s2 cyclic commit b ss = .ok true := by
+        unfold verifyRound
+        simp only [hl, hr, hm, bind, Except.bind, hc, pure, Except.pure, ne_eq, not_true_eq_false,
+          if_false, Bool.false_eq_true]
+        rw [if_neg hy]
+      rw [hv]
+      exact ⟨fun _ => ⟨hl, hr', s4, rfl, hc, hcy⟩, fun _ => rfl⟩
 
 /-- **C04, soundness core.**  If for ONE commitment value both challenge bits are answerable,
     then either the two hashed stack texts form an explicit collision of `H`, or `s2` is a
     re-masked permutation of `s` (a cyclic shift when `cyclic`): the witness `ss` is extracted
     as `glue ssA (ssB⁻¹)`.
 
-    Hypotheses that the statement needs for this model:
-    * the index components of both responses are bijections — `verifyRound` itself does not
-      test this, `Codec.importStackSecret` (through which `verify` obtains every response) does
-      (`Codec.importStackSecret_bijection`);
-    * the exponents of both responses fit the fixed-base tables (`FitsAll`).  WITHOUT this the
-      statement is FALSE for the model (and for the C++ code): an exponent with more than `|q|`
-      bits makes `tmcg_mpz_fpowm` multiply with a table entry that was never computed (zero), so
-      every mixed card is `(0, 0)` whatever the input stack, and both challenges are answerable
-      for any pair of stacks — see `unsound_without_fits` below. -/
+    The index components of both responses must be bijections — `verifyRound` itself does not
+    test this, `Codec.importStackSecret` (through which `verify` obtains every response) does
+    (`Codec.importStackSecret_bijection`), so `verify` supplies these hypotheses.
+
+    The proof uses the range test `|r| < q` of `verifyRound` (repair of finding F26).  With the
+    original rule (no test) the statement is FALSE: an exponent with more than `|q|` bits makes
+    `tmcg_mpz_fpowm` multiply with a table entry that was never computed (zero), so every mixed
+    card is `(0, 0)` whatever the input stack, and both challenges are answerable for any pair of
+    stacks (see the section "the original rule" at the end of this file). -/
 theorem stackeq_round_extract (hG : ValidGroup G) {St : State} (hS : StateOk G St) (H : Hash)
     (s s2 : List Card) (cyclic : Bool) (commit : Int) (ssA ssB : StackSecret Int)
     (hpA : IsPerm ssA.length ssA) (hpB : IsPerm ssB.length ssB)
-    (hfA : FitsAll G ssA) (hfB : FitsAll G ssB)
     (hA : verifyRound H St s s2 cyclic commit false ssA = .ok true)
     (hB : verifyRound H St s s2 cyclic commit true ssB = .ok true) :
     (∃ sA sB, vtmfMix St false s ssA = .ok sA ∧ vtmfMix St false s2 ssB = .ok sB ∧
@@ -537,8 +598,11 @@ theorem stackeq_round_extract (hG : ValidGroup G) {St : State} (hS : StateOk G S
         vtmfMix St false s ss = .ok s2' ∧ List.Forall₂ (CardEq G) s2' s2 ∧
         ((∀ c ∈ s2, Reduced G c) → s2' = s2)) := by
   rw [verifyRound_ok_iff] at hA hB
-  obtain ⟨lA, s4, mA, cA, yA⟩ := hA
-  obtain ⟨lB, s4', mB, cB, yB⟩ := hB
+  obtain ⟨lA, rA, s4, mA, cA, yA⟩ := hA
+  obtain ⟨lB, rB, s4', mB, cB, yB⟩ := hB
+  rw [hS.grp] at rA rB
+  have hfA : FitsAll G ssA := fun e he => fits_of_lt hG (rA e he)
+  have hfB : FitsAll G ssB := fun e he => fits_of_lt hG (rB e he)
   simp only [Bool.false_eq_true, if_false] at mA
   simp only [if_true] at mB
   by_cases ht : Codec.stackText s4 ++ "\n" = Codec.stackText s4' ++ "\n"
@@ -574,11 +638,584 @@ theorem stackeq_round_extract (hG : ValidGroup G) {St : State} (hS : StateOk G S
     rw [hfst]
     exact cyclic_comp_inv G.q ssA ssB (lA.trans lB.symm) hpB (yA hc) (yB hc)
   · intro hred
-    apply eq_of_forall₂_eq
-    refine hF.imp ?_
-    intro c c' hcc
-    sorry
+    exact eq_of_forall₂_of hF hR hred (fun c c' h1 h2 h3 => h1.eq_of_reduced hG h2 h3)
+
+/-! ### the whole verifier -/
+
+omit [Fact (Nat.Prime G.p.natAbs)] in
+theorem go_ok_iff (H : Hash) (St : State) (s s2 : List Card) (cyclic : Bool) :
+    ∀ rs : List (Int × Bool × String), verify.go H St s s2 cyclic rs = .ok true ↔
+      ∀ r ∈ rs, ∃ ss, Codec.importStackSecret r.2.2 = some ss ∧
+        verifyRound H St s s2 cyclic r.1 r.2.1 ss = .ok true := by
+  intro rs
+  induction rs with
+  | nil => simp [verify.go]
+  | cons r rest ih =>
+    obtain ⟨commit, b, txt⟩ := r
+    have hne : (Except.ok false : Except Err Bool) ≠ .ok true := by
+      intro h; injection h with h; cases h
+    unfold verify.go
+    cases himp : Codec.importStackSecret txt with
+    | none =>
+      simp only [pure, Except.pure]
+      refine ⟨fun h => absurd h hne, fun h => ?_⟩
+      obtain ⟨ss, h1, -⟩ := h (commit, b, txt) (by simp)
+      rw [himp] at h1
+      cases h1
+    | some ss =>
+      simp only
+      cases hv : verifyRound H St s s2 cyclic commit b ss with
+      | error e =>
+        simp only [bind, Except.bind]
+        refine ⟨fun h => (by cases h), fun h => ?_⟩
+        obtain ⟨ss', h1, h2⟩ := h (commit, b, txt) (by simp)
+        rw [himp] at h1
+        injection h1 with h1
+        subst h1
+        rw [hv] at h2
+        cases h2
+      | ok ok =>
+        cases ok with
+        | false =>
+          simp only [bind, Except.bind, Bool.false_eq_true, if_false, pure, Except.pure]
+          refine ⟨fun h => absurd h hne, fun h => ?_⟩
+          obtain ⟨ss', h1, h2⟩ := h (commit, b, txt) (by simp)
+          rw [himp] at h1
+          injection h1 with h1
+          subst h1
+          rw [hv] at h2
+          exact absurd h2 hne
+        | true =>
+          simp only [bind, Except.bind, if_true]
+          rw [ih]
+          constructor
+          · intro h r hr
+            rcases List.mem_cons.1 hr with rfl | hr
+            · exact ⟨ss, himp, hv⟩
+            · exact h r hr
+          · intro h r hr
+            exact h r (List.mem_cons_of_mem _ hr)
+
+omit [Fact (Nat.Prime G.p.natAbs)] in
+theorem verify_ok_iff (H : Hash) (kind : Kind) (St : State) (s s2 : List Card) (cyclic : Bool)
+    (rs : List (Int × Bool × String)) :
+    verify H kind St s s2 cyclic rs = .ok true ↔
+      s.length = s2.length ∧
+      (s2.all fun c => checkElement kind St.G c.c1 && checkElement kind St.G c.c2) = true ∧
+      verify.go H St s s2 cyclic rs = .ok true := by
+  have hne : (Except.ok false : Except Err Bool) ≠ .ok true := by
+    intro h; injection h with h; cases h
+  unfold verify
+  generalize (s2.all fun c => checkElement kind St.G c.c1 && checkElement kind St.G c.c2) = chk
+  by_cases hl : s.length = s2.length
+  swap
+  · rw [if_pos hl]
+    exact ⟨fun h => absurd h hne, fun h => absurd h.1 hl⟩
+  rw [if_neg (not_not.2 hl)]
+  cases chk with
+  | false =>
+    simp only [pure, Except.pure, Bool.not_false, if_true]
+    exact ⟨fun h => absurd h hne, fun h => by simp at h⟩
+  | true =>
+    simp only [pure, Except.pure, Bool.not_true, Bool.false_eq_true, if_false]
+    exact ⟨fun h => ⟨hl, trivial, h⟩, fun h => h.2.2⟩
+
+omit [Fact (Nat.Prime G.p.natAbs)] in
+theorem checkElement_range (kind : Kind) (G : Group) (a : Int) (h : checkElement kind G a = true) :
+    0 ≤ a ∧ a < G.p := by
+  unfold checkElement at h
+  split at h
+  · cases h
+  · omega
+
+/-- the transcript of `κ` rounds as the verifier sees it: the commitments were fixed first, the
+    challenge bits are `bs`, the responses the texts `txts`.  A missing response reads as the
+    empty text, which the importer refuses (the C++ verifier fails on the exhausted stream). -/
+def rounds {κ : Nat} (commits : List Int) (bs : Fin κ → Bool) (txts : List String) :
+    List (Int × Bool × String) :=
+  List.ofFn fun i : Fin κ => (commits.getD i 0, bs i, txts.getD i "")
+
+/-- no two different stack texts have the same hash value -/
+def NoStackCollision (H : Hash) : Prop :=
+  ∀ a b : List Card, H (Codec.stackText a ++ "\n") = H (Codec.stackText b ++ "\n") →
+    Codec.stackText a ++ "\n" = Codec.stackText b ++ "\n"
+
+omit [Fact (Nat.Prime G.p.natAbs)] in
+theorem noStackCollision_of_injective {H : Hash} (h : Function.Injective H) : NoStackCollision H :=
+  fun _ _ e => h e
+
+/-- `s2` is a re-masked permutation of `s` (a re-masked cyclic shift when `cyclic`): some stack
+    secret with bijective index component and canonical exponents mixes `s` into exactly `s2` -/
+def Remasked (G : Group) (St : State) (cyclic : Bool) (s s2 : List Card) : Prop :=
+  ∃ ss : StackSecret Int, IsPerm s.length ss ∧ ExpRange G ss ∧
+    (cyclic = true → isCyclic (ss.map Prod.fst) = true) ∧ vtmfMix St false s ss = .ok s2
+
+/-- two accepted transcripts with the same commitments and different challenge vectors yield a
+    witness (or a collision of `H`, excluded here) -/
+theorem stackeq_two_challenges (hG : ValidGroup G) {St : State} (hS : StateOk G St) (H : Hash)
+    (hH : NoStackCollision H) (kind : Kind) (s s2 : List Card) (cyclic : Bool) {κ : Nat}
+    (commits : List Int) (bs bs' : Fin κ → Bool) (txts txts' : List String) (hne : bs ≠ bs')
+    (h1 : verify H kind St s s2 cyclic (rounds commits bs txts) = .ok true)
+    (h2 : verify H kind St s s2 cyclic (rounds commits bs' txts') = .ok true) :
+    Remasked G St cyclic s s2 := by
+  rw [verify_ok_iff, go_ok_iff] at h1 h2
+  obtain ⟨-, hmem, g1⟩ := h1
+  obtain ⟨-, -, g2⟩ := h2
+  have hred : ∀ c ∈ s2, Reduced G c := by
+    intro c hc
+    rw [List.all_eq_true] at hmem
+    have := hmem c hc
+    rw [Bool.and_eq_true, hS.grp] at this
+    exact ⟨checkElement_range _ _ _ this.1, checkElement_range _ _ _ this.2⟩
+  obtain ⟨i, hi⟩ := Function.ne_iff.1 hne
+  obtain ⟨ssX, iX, vX⟩ := g1 (commits.getD i 0, bs i, txts.getD i "")
+    (by unfold rounds; rw [List.mem_ofFn]; exact ⟨i, rfl⟩)
+  obtain ⟨ssY, iY, vY⟩ := g2 (commits.getD i 0, bs' i, txts'.getD i "")
+    (by unfold rounds; rw [List.mem_ofFn]; exact ⟨i, rfl⟩)
+  simp only at iX vX iY vY
+  have pX := (Codec.importStackSecret_bijection _ _ iX).2.2
+  have pY := (Codec.importStackSecret_bijection _ _ iY).2.2
+  have fin : ∀ ssA ssB, IsPerm ssA.length ssA → IsPerm ssB.length ssB →
+      verifyRound H St s s2 cyclic (commits.getD i 0) false ssA = .ok true →
+      verifyRound H St s s2 cyclic (commits.getD i 0) true ssB = .ok true →
+      Remasked G St cyclic s s2 := by
+    intro ssA ssB pA pB vA vB
+    rcases stackeq_round_extract hG hS H s s2 cyclic _ ssA ssB pA pB vA vB with
+      ⟨sA, sB, -, -, hd, he⟩ | ⟨ss, s2', hp, hr, hc, hm, -, heq⟩
+    · exact absurd (hH sA sB he) hd
+    · exact ⟨ss, hp, hr, hc, by rw [hm, heq hred]⟩
+  cases hb : bs i <;> cases hb' : bs' i
+  · exact absurd (hb.trans hb'.symm) hi
+  · rw [hb] at vX; rw [hb'] at vY
+    exact fin ssX ssY pX pY vX vY
+  · rw [hb] at vX; rw [hb'] at vY
+    exact fin ssY ssX pY pX vY vX
+  · exact absurd (hb.trans hb'.symm) hi
+
+open Classical in
+/-- **C04, the `2^-κ` bound.**  Fix the statement `(s, s2)` and the commitments of `κ` rounds
+    (they are sent before the challenges), and let the prover answer by ANY strategy `resp`
+    that may depend on the whole challenge vector.  If `s2` is not a re-masked (cyclic)
+    permutation of `s` and `H` has no collision among stack texts, at most ONE of the `2^κ`
+    challenge vectors is accepted. -/
+theorem stackeq_soundness_bound (hG : ValidGroup G) {St : State} (hS : StateOk G St) (H : Hash)
+    (hH : NoStackCollision H) (kind : Kind) (s s2 : List Card) (cyclic : Bool) (κ : Nat)
+    (commits : List Int) (resp : List Bool → List String)
+    (hnot : ¬ Remasked G St cyclic s s2) :
+    ((Finset.univ : Finset (Fin κ → Bool)).filter fun bs =>
+      verify H kind St s s2 cyclic (rounds commits bs (resp (List.ofFn bs))) = .ok true).card ≤ 1 := by
+  rw [Finset.card_le_one]
+  intro bs hbs bs' hbs'
+  rw [Finset.mem_filter] at hbs hbs'
+  by_contra hne
+  exact hnot (stackeq_two_challenges hG hS H hH kind s s2 cyclic commits bs bs' _ _ hne hbs.2 hbs'.2)
+
+open Classical in
+/-- the same bound as a probability: a uniformly random challenge vector is accepted with
+    probability at most `2^-κ` -/
+theorem stackeq_soundness_prob (hG : ValidGroup G) {St : State} (hS : StateOk G St) (H : Hash)
+    (hH : NoStackCollision H) (kind : Kind) (s s2 : List Card) (cyclic : Bool) (κ : Nat)
+    (commits : List Int) (resp : List Bool → List String)
+    (hnot : ¬ Remasked G St cyclic s s2) :
+    ((((Finset.univ : Finset (Fin κ → Bool)).filter fun bs =>
+      verify H kind St s s2 cyclic (rounds commits bs (resp (List.ofFn bs))) = .ok true).card : ℚ) /
+      (Fintype.card (Fin κ → Bool) : ℚ)) ≤ 1 / 2 ^ κ := by
+  have h := stackeq_soundness_bound hG hS H hH kind s s2 cyclic κ commits resp hnot
+  have hc : (Fintype.card (Fin κ → Bool) : ℚ) = 2 ^ κ := by simp
+  rw [hc]
+  apply div_le_div_of_nonneg_right _ (by positivity)
+  exact_mod_cast h
+
+/-! ### completeness (C03) -/
+
+/-- the honest prover's side of `κ` rounds: round `i` uses the fresh secret and the challenge bit
+    of the `i`-th entry; the response travels as text -/
+def transcript (H : Hash) (Sp : State) (s2 : List Card) (ss : StackSecret Int) :
+    List (StackSecret Int × Bool) → Except Err (List (Int × Bool × String))
+  | [] => .ok []
+  | (ss2, b) :: rest =>
+    match proveRound H Sp s2 ss ss2 b with
+    | .error e => .error e
+    | .ok (c, r) =>
+      match transcript H Sp s2 ss rest with
+      | .error e => .error e
+      | .ok t => .ok ((c, b, Codec.stackSecretText r) :: t)
+
+/-- an honestly generated stack secret for a stack of `n` cards -/
+structure HonestSecret (G : Group) (n : Nat) (cyclic : Bool) (ss : StackSecret Int) : Prop where
+  len : ss.length = n
+  perm : IsPerm n ss
+  range : ∀ e ∈ ss, e.2.natAbs < G.q.natAbs
+  cyc : cyclic = true → isCyclic (ss.map Prod.fst) = true
+
+theorem HonestSecret.fits (hG : ValidGroup G) {n : Nat} {cyclic : Bool} {ss : StackSecret Int}
+    (h : HonestSecret G n cyclic ss) : FitsAll G ss := fun e he => fits_of_lt hG (h.range e he)
+
+theorem mix_state_indep (hG : ValidGroup G) {Sp Sv : State} (hp : StateOk G Sp)
+    (hv : StateOk G Sv) (hsame : Sp.h = Sv.h) (t t' : Bool) (s : List Card)
+    (ss : StackSecret Int) (hf : FitsAll G ss) : vtmfMix Sp t s ss = vtmfMix Sv t' s ss := by
+  rw [mix_eq_total hG hp t s ss hf, mix_eq_total hG hv t' s ss hf, hsame]
+
+theorem remaskP_mem (hG : ValidGroup G) {h : Int} (hh : Mem G h) {c : Card}
+    (hc : Mem G c.c1 ∧ Mem G c.c2) (r : Int) :
+    Mem G (remaskP G h c r).c1 ∧ Mem G (remaskP G h c r).c2 := by
+  have hg0 := g_ne_zero hG
+  constructor
+  · exact mem_of_val (rep_range hG _).1 (rep_range hG _).2 (toF_rep _)
+      (mul_ne_zero (zpow_ne_zero _ hg0) (hc.1.ne_zero hG))
+      (by rw [mul_pow, zpow_pow_q (g_pow_q hG), hc.1.2.2, one_mul])
+  · exact mem_of_val (rep_range hG _).1 (rep_range hG _).2 (toF_rep _)
+      (mul_ne_zero (zpow_ne_zero _ (hh.ne_zero hG)) (hc.2.ne_zero hG))
+      (by rw [mul_pow, zpow_pow_q hh.2.2, hc.2.2.2, one_mul])
+
+/-- the composition of two cyclic shifts is a cyclic shift -/
+theorem cyclic_comp (A B : StackSecret Int) (hl : A.length = B.length)
+    (hcA : isCyclic (A.map Prod.fst) = true) (hcB : isCyclic (B.map Prod.fst) = true) :
+    isCyclic (B.map (fun e => (A.map Prod.fst).getD e.1 0)) = true := by
+  rw [isCyclic_iff] at hcA hcB ⊢
+  simp only [List.length_map] at hcA hcB ⊢
+  have hL : ∀ k, k < B.length → (B.map (fun e => (A.map Prod.fst).getD e.1 0)).getD k 0 =
+      (A.map Prod.fst).getD ((B.map Prod.fst).getD k 0) 0 := by
+    intro k hk
+    have e1 : (B.map (fun e => (A.map Prod.fst).getD e.1 0)).getD k 0 =
+        (A.map Prod.fst).getD (B[k]).1 0 := by
+      rw [List.getD_eq_getElem _ _ (by simpa using hk), List.getElem_map]
+    have e2 : (B.map Prod.fst).getD k 0 = (B[k]).1 := by
+      rw [List.getD_eq_getElem _ _ (by simpa using hk), List.getElem_map]
+    rw [e1, e2]
+  intro k hk
+  have h0 : 0 < B.length := by omega
+  have eBk := hcB k hk
+  have eB0 : (B.map Prod.fst).getD 0 0 < B.length := by
+    have := hcB 0 h0
+    rw [this]
+    exact Nat.mod_lt _ h0
+  have lk : ((B.map Prod.fst).getD 0 0 + k) % B.length < A.length := by
+    rw [hl]; exact Nat.mod_lt _ h0
+  have ak := hcA _ lk
+  have a0' := hcA ((B.map Prod.fst).getD 0 0) (by rw [hl]; exact eB0)
+  rw [hL k hk, hL 0 h0, eBk, ak, a0', hl]
+  clear ak a0'
+  clear eBk hL hcA hcB lk
+  generalize (A.map Prod.fst).getD 0 0 = a0
+  generalize (B.map Prod.fst).getD 0 0 = b0
+  generalize B.length = n
+  show (a0 + (b0 + k) % n) ≡ ((a0 + b0) % n + k) [MOD n]
+  have g1 : a0 + (b0 + k) % n ≡ a0 + (b0 + k) [MOD n] := (Nat.mod_modEq _ _).add_left a0
+  have g2 : (a0 + b0) % n + k ≡ a0 + b0 + k [MOD n] := (Nat.mod_modEq _ _).add_right k
+  refine g1.trans (Nat.ModEq.trans ?_ g2.symm)
+  rw [Nat.add_assoc]
+
+/-- one honest round is accepted, and its response survives the text transport -/
+theorem round_complete (hG : ValidGroup G) (H : Hash) {Sp Sv : State} (hp : StateOk G Sp)
+    (hv : StateOk G Sv) (hsame : Sp.h = Sv.h) (s s2 : List Card) (cyclic : Bool)
+    (h0 : 0 < s.length) (hmax : s.length ≤ Gen.TMCG_MAX_CARDS)
+    (ss : StackSecret Int) (hss : HonestSecret G s.length cyclic ss) (tap : Bool)
+    (hs2 : vtmfMix Sp tap s ss = .ok s2)
+    (ss2 : StackSecret Int) (hss2 : HonestSecret G s.length cyclic ss2) (b : Bool) :
+    ∃ commit resp, proveRound H Sp s2 ss ss2 b = .ok (commit, resp) ∧
+      Codec.importStackSecret (Codec.stackSecretText resp) = some resp ∧
+      verifyRound H Sv s s2 cyclic commit b resp = .ok true := by
+  obtain ⟨g, s1, s3, hg, hs1, hs3, hgs, hgl, hs1l, -, hfst, hgr⟩ :=
+    mix_glue hG hv s ss ss2 tap false false hss.len hss2.len hss.perm hss2.perm.lt
+      (hss.fits hG) (hss2.fits hG)
+  rw [← mix_state_indep hG hp hv hsame tap tap s ss (hss.fits hG), hs2] at hs1
+  injection hs1 with hs1
+  subst hs1
+  have hp3 : vtmfMix Sp true s2 ss2 = .ok s3 := by
+    rw [mix_state_indep hG hp hv hsame true false s2 ss2 (hss2.fits hG), hs3]
+  cases b with
+  | true =>
+    refine ⟨commitment H s3, ss2, ?_, ?_, ?_⟩
+    · unfold proveRound
+      rw [hp3]
+      rfl
+    · exact Codec.importStackSecret_text ss2 (hss2.len ▸ h0) (hss2.len ▸ hmax)
+        (by rw [hss2.len]; exact hss2.perm)
+    · rw [verifyRound_ok_iff]
+      refine ⟨hss2.len, ?_, s3, hs3, rfl, hss2.cyc⟩
+      rw [hv.grp]; exact hss2.range
+  | false =>
+    have hgp : IsPerm g.length g := glue_perm (fun x y => (x + y) % G.q) ss ss2 g
+      (hss.len.trans hss2.len.symm) (by rw [hss.len]; exact hss.perm)
+      (by rw [hss2.len]; exact hss2.perm) hg
+    refine ⟨commitment H s3, g, ?_, ?_, ?_⟩
+    · unfold proveRound
+      rw [hp3, hp.grp]
+      simp only [bind, Except.bind, Bool.false_eq_true, if_false, hg]
+    · exact Codec.importStackSecret_text g (hgl ▸ h0) (hgl ▸ hmax) hgp
+    · rw [verifyRound_ok_iff]
+      refine ⟨hgl, ?_, s3, hgs, rfl, ?_⟩
+      · rw [hv.grp]
+        intro e he
+        have := hgr e he
+        have := hG.q_pos
+        omega
+      · intro hc
+        rw [hfst]
+        exact cyclic_comp ss ss2 (hss.len.trans hss2.len.symm) (hss.cyc hc) (hss2.cyc hc)
+
+/-- **C03 for the cut-and-choose proof of stack equality.**  For every stack `s` of group
+    elements, every honest secret `ss` with `s2 = mix(s, ss)`, every number of rounds, every
+    fresh secrets and every challenge bits, the honest transcript (responses exported by the
+    codec and re-imported by the verifier) is accepted — for shuffles (`cyclic = false`, the
+    index components arbitrary bijections) and for rotations (`cyclic = true`, all index
+    components cyclic shifts).
+
+    Conditions that the model imposes: `1 ≤ |s| ≤ TMCG_MAX_CARDS` (the importer of stack
+    secrets refuses other sizes, so an empty stack has no accepted proof with `κ ≥ 1`);
+    the group flavour is the Schnorr group (`CheckElement` of the QR flavour is a Jacobi-symbol
+    test that `ValidGroup` does not describe); prover and verifier hold the same common key. -/
+theorem stackeq_complete (hG : ValidGroup G) (H : Hash) {Sp Sv : State} (hp : StateOk G Sp)
+    (hv : StateOk G Sv) (hsame : Sp.h = Sv.h) (s s2 : List Card) (cyclic : Bool)
+    (hs : ∀ c ∈ s, Mem G c.c1 ∧ Mem G c.c2)
+    (h0 : 0 < s.length) (hmax : s.length ≤ Gen.TMCG_MAX_CARDS)
+    (ss : StackSecret Int) (hss : HonestSecret G s.length cyclic ss) (tap : Bool)
+    (hs2 : vtmfMix Sp tap s ss = .ok s2)
+    (rs : List (StackSecret Int × Bool)) (hrs : ∀ r ∈ rs, HonestSecret G s.length cyclic r.1) :
+    ∃ tr, transcript H Sp s2 ss rs = .ok tr ∧ tr.length = rs.length ∧
+      tr.map (fun r => r.2.1) = rs.map Prod.snd ∧
+      verify H .schnorr Sv s s2 cyclic tr = .ok true := by
+  have hrounds : ∃ tr, transcript H Sp s2 ss rs = .ok tr ∧ tr.length = rs.length ∧
+      tr.map (fun r => r.2.1) = rs.map Prod.snd ∧
+      ∀ r ∈ tr, ∃ ss', Codec.importStackSecret r.2.2 = some ss' ∧
+        verifyRound H Sv s s2 cyclic r.1 r.2.1 ss' = .ok true := by
+    induction rs with
+    | nil => exact ⟨[], rfl, rfl, rfl, by simp⟩
+    | cons r rest ih =>
+      obtain ⟨ss2, b⟩ := r
+      obtain ⟨tr, h1, h2, h3, h4⟩ := ih (fun r hr => hrs r (List.mem_cons_of_mem _ hr))
+      obtain ⟨commit, resp, e1, e2, e3⟩ := round_complete hG H hp hv hsame s s2 cyclic h0 hmax ss
+        hss tap hs2 ss2 (hrs (ss2, b) (by simp)) b
+      refine ⟨(commit, b, Codec.stackSecretText resp) :: tr, ?_, by simp [h2], by simp [h3], ?_⟩
+      · unfold transcript
+        rw [e1, h1]
+      · intro r hr
+        rcases List.mem_cons.1 hr with rfl | hr
+        · exact ⟨resp, e2, e3⟩
+        · exact h4 r hr
+  obtain ⟨tr, h1, h2, h3, h4⟩ := hrounds
+  refine ⟨tr, h1, h2, h3, ?_⟩
+  rw [verify_ok_iff, go_ok_iff]
+  have hs2' := hs2
+  rw [mix_eq_total hG hp tap s ss (hss.fits hG)] at hs2'
+  obtain ⟨l1, -, sp⟩ := mixT_spec hs2'
+  refine ⟨l1.symm, ?_, h4⟩
+  rw [List.all_eq_true]
+  intro c hc
+  obtain ⟨i, hi, rfl⟩ := List.getElem_of_mem hc
+  obtain ⟨hj, e⟩ := sp i (l1 ▸ hi)
+  rw [List.getD_eq_getElem _ _ hi, List.getD_eq_getElem _ _ hj] at e
+  have hm := remaskP_mem hG hp.mem_h (hs _ (List.getElem_mem hj))
+    (ss.getD (ss.getD i (0, 0)).1 (0, 0)).2
+  rw [← e] at hm
+  rw [Bool.and_eq_true, hv.grp, checkElement_iff hG, checkElement_iff hG]
+  exact hm
 
 end field
+
+/-! ### non-vacuity: the group `p = 23`, `q = 11`, `g = 2`, common key `h = 3` -/
+
+def G23 : Group := ⟨23, 11, 2⟩
+
+theorem valid23 : ValidGroup G23 :=
+  ⟨by decide, by decide, (by show Nat.Prime 23; decide), (by show Nat.Prime 11; decide), by decide,
+    by decide, by decide, by decide⟩
+
+theorem mem23 (m : Int) (h : 0 < m ∧ m < 23 ∧ m ^ 11 % 23 = 1) :
+    haveI := fact_prime valid23
+    Mem G23 m := by
+  have := fact_prime valid23
+  refine ⟨h.1, h.2.1, ?_⟩
+  rw [← toF_pow, ← toF_one (G := G23), toF_eq_iff valid23]
+  exact h.2.2
+
+/-- a well-formed player state over the tiny group (tables as the constructor builds them) -/
+theorem state23 : haveI := fact_prime valid23
+    ∃ St : State, StateOk G23 St ∧ St.h = 3 := by
+  have := fact_prime valid23
+  obtain ⟨Tg, hTg⟩ := table_exists valid23 (2 : Int)
+  obtain ⟨Th, hTh⟩ := table_exists valid23 (3 : Int)
+  have hm := mem23 3 (by decide)
+  exact ⟨{ G := G23, tabG := Tg, tabH := Th, h := 3 },
+    ⟨rfl, hTg, hTh, ⟨hm.1, hm.2.1⟩, hm.2.2⟩, rfl⟩
+
+/-- `mix_glue` on three cards: all hypotheses are satisfiable (a non-cyclic shuffle glued with a
+    rotation, one negative exponent) -/
+example : haveI := fact_prime valid23
+    ∃ (St : State) (g : StackSecret Int) (s1 s3 : List Card),
+      vtmfGlue G23.q [(1, 5), (0, 7), (2, 3)] [(2, -4), (0, 10), (1, 0)] = .ok g ∧
+      vtmfMix St true [⟨2, 3⟩, ⟨4, 9⟩, ⟨8, 4⟩] [(1, 5), (0, 7), (2, 3)] = .ok s1 ∧
+      vtmfMix St true s1 [(2, -4), (0, 10), (1, 0)] = .ok s3 ∧
+      vtmfMix St false [⟨2, 3⟩, ⟨4, 9⟩, ⟨8, 4⟩] g = .ok s3 := by
+  have := fact_prime valid23
+  obtain ⟨St, hS, -⟩ := state23
+  obtain ⟨g, s1, s3, h1, h2, h3, h4, -⟩ := mix_glue valid23 hS [⟨2, 3⟩, ⟨4, 9⟩, ⟨8, 4⟩]
+    [(1, 5), (0, 7), (2, 3)] [(2, -4), (0, 10), (1, 0)] true true false rfl rfl (by decide)
+    (by decide)
+    (fun e he => fits_of_lt valid23 (by
+      simp only [List.mem_cons, List.not_mem_nil, or_false] at he
+      rcases he with rfl | rfl | rfl <;> decide))
+    (fun e he => fits_of_lt valid23 (by
+      simp only [List.mem_cons, List.not_mem_nil, or_false] at he
+      rcases he with rfl | rfl | rfl <;> decide))
+  exact ⟨St, g, s1, s3, h1, h2, h3, h4⟩
+
+theorem honest23 (cyclic : Bool) (ss : StackSecret Int) (h1 : ss.length = 3)
+    (h2 : (ss.map Prod.fst).Perm (List.range 3))
+    (h3 : ss.all (fun e => decide (e.2.natAbs < 11)) = true)
+    (h4 : cyclic = true → isCyclic (ss.map Prod.fst) = true) : HonestSecret G23 3 cyclic ss :=
+  ⟨h1, h2, fun e he => by
+    rw [List.all_eq_true] at h3
+    show e.2.natAbs < 11
+    simpa using h3 e he, h4⟩
+
+/-- `stackeq_complete` is not vacuous: a rotation of three cards, two rounds (one per challenge
+    value), any hash function -/
+example (H : Hash) : haveI := fact_prime valid23
+    ∃ (St : State) (s2 : List Card) (tr : List (Int × Bool × String)),
+      vtmfMix St true [⟨2, 3⟩, ⟨4, 9⟩, ⟨8, 4⟩] [(2, 5), (0, 7), (1, 3)] = .ok s2 ∧
+      transcript H St s2 [(2, 5), (0, 7), (1, 3)]
+        [([(1, 1), (2, 10), (0, 4)], false), ([(0, 6), (1, 0), (2, 9)], true)] = .ok tr ∧
+      tr.map (fun r => r.2.1) = [false, true] ∧
+      verify H .schnorr St [⟨2, 3⟩, ⟨4, 9⟩, ⟨8, 4⟩] s2 true tr = .ok true := by
+  have := fact_prime valid23
+  obtain ⟨St, hS, -⟩ := state23
+  have hss : HonestSecret G23 3 true [(2, 5), (0, 7), (1, 3)] :=
+    honest23 _ _ rfl (by decide) (by decide) (fun _ => by decide)
+  obtain ⟨s2, hs2⟩ : ∃ s2, vtmfMix St true [⟨2, 3⟩, ⟨4, 9⟩, ⟨8, 4⟩] [(2, 5), (0, 7), (1, 3)] = .ok s2 := by
+    rw [mix_eq_total valid23 hS _ _ _ (hss.fits valid23)]
+    exact mixT_ok _ _ _ rfl (by decide)
+  obtain ⟨tr, h1, -, h3, h4⟩ := stackeq_complete valid23 H hS hS rfl [⟨2, 3⟩, ⟨4, 9⟩, ⟨8, 4⟩] s2 true
+    (by
+      intro c hc
+      simp only [List.mem_cons, List.not_mem_nil, or_false] at hc
+      rcases hc with rfl | rfl | rfl <;> exact ⟨mem23 _ (by decide), mem23 _ (by decide)⟩)
+    (by decide) (by decide) [(2, 5), (0, 7), (1, 3)] hss true hs2
+    [([(1, 1), (2, 10), (0, 4)], false), ([(0, 6), (1, 0), (2, 9)], true)]
+    (by
+      intro r hr
+      simp only [List.mem_cons, List.not_mem_nil, or_false] at hr
+      rcases hr with rfl | rfl <;>
+        exact honest23 _ _ rfl (by decide) (by decide) (fun _ => by decide))
+  exact ⟨St, s2, tr, hs2, h1, h3, h4⟩
+
+/-- an injective "hash function" (for the non-vacuity of the collision hypothesis only) -/
+def Hinj : Hash := fun t => ((Encodable.encode (t.toList.map Char.toNat) : Nat) : Int)
+
+theorem Hinj_injective : Function.Injective Hinj := by
+  intro a b h
+  unfold Hinj at h
+  have h1 := Encodable.encode_injective (Int.ofNat_inj.1 h)
+  have h2 : Function.Injective (List.map Char.toNat) :=
+    List.map_injective_iff.2 (fun c d h => Char.toNat_inj.1 h)
+  exact String.toList_injective (h2 h1)
+
+/-- in the tiny group the stack `[(1,2), (1,2)]` is not a re-masking of `[(1,1), (1,1)]`:
+    `c_1 = 1` forces the exponent 0, which leaves `c_2 = 1` -/
+theorem not_remasked23 {St : State} (hS : haveI := fact_prime valid23; StateOk G23 St)
+    (cyclic : Bool) : ¬ Remasked G23 St cyclic [⟨1, 1⟩, ⟨1, 1⟩] [⟨1, 2⟩, ⟨1, 2⟩] := by
+  have := fact_prime valid23
+  rintro ⟨ss, hp, hr, -, hm⟩
+  rw [mix_eq_total valid23 hS _ _ _ (hr.fits valid23)] at hm
+  obtain ⟨-, hl, sp⟩ := mixT_spec hm
+  obtain ⟨hj, e⟩ := sp 0 (by decide)
+  generalize (ss.getD 0 (0, 0)).1 = j at hj e
+  have hjl : j < ss.length := by rw [hl]; exact hj
+  have hrange := hr (ss.getD j (0, 0)) (by
+    rw [List.getD_eq_getElem _ _ hjl]; exact List.getElem_mem hjl)
+  generalize (ss.getD j (0, 0)).2 = r at e hrange
+  have hc : ([⟨1, 1⟩, ⟨1, 1⟩] : List Card).getD j ⟨0, 0⟩ = ⟨1, 1⟩ := by
+    simp only [List.length_cons, List.length_nil] at hj
+    interval_cases j <;> rfl
+  rw [hc] at e
+  simp only [List.getD_cons_zero] at e
+  unfold remaskP at e
+  injection e with e1 e2
+  have f1 := congrArg (toF G23) e1
+  have f2 := congrArg (toF G23) e2
+  rw [toF_rep, toF_one, mul_one] at f1 f2
+  have hr0 : r = 0 := by
+    have h := VtmfOpen.emod_q_of_zpow_eq valid23 0 r (by rw [zpow_zero]; exact f1)
+    have hq : G23.q = 11 := rfl
+    rw [hq] at h hrange
+    omega
+  rw [hr0, zpow_zero, ← toF_one (G := G23), toF_eq_iff valid23] at f2
+  revert f2
+  decide
+
+/-- `stackeq_soundness_bound` is not vacuous: all hypotheses are satisfiable, for every number of
+    rounds, commitments and prover strategy -/
+example (κ : Nat) (commits : List Int) (resp : List Bool → List String) (cyclic : Bool) :
+    haveI := fact_prime valid23
+    ∃ St : State, StateOk G23 St ∧
+      ([⟨1, 2⟩, ⟨1, 2⟩] : List Card).all
+        (fun c => checkElement .schnorr St.G c.c1 && checkElement .schnorr St.G c.c2) = true ∧
+      ((Finset.univ : Finset (Fin κ → Bool)).filter fun bs =>
+        verify Hinj .schnorr St [⟨1, 1⟩, ⟨1, 1⟩] [⟨1, 2⟩, ⟨1, 2⟩] cyclic
+          (rounds commits bs (resp (List.ofFn bs))) = .ok true).card ≤ 1 := by
+  have := fact_prime valid23
+  obtain ⟨St, hS, -⟩ := state23
+  refine ⟨St, hS, ?_, stackeq_soundness_bound valid23 hS Hinj
+    (noStackCollision_of_injective Hinj_injective) .schnorr _ _ cyclic κ commits resp
+    (not_remasked23 hS cyclic)⟩
+  rw [hS.grp]
+  simp only [List.all_cons, List.all_nil, Bool.and_true, Bool.and_self, Bool.and_eq_true]
+  have h1 := (checkElement_iff valid23 1).2 (mem23 1 (by decide))
+  have h2 := (checkElement_iff valid23 2).2 (mem23 2 (by decide))
+  exact ⟨h1, h2⟩
+
+/-! ### the original rule (before the repair of finding F26)
+
+  `TMCG_VerifyStackEquality` originally did not look at the size of the received exponents.  The
+  fixed-base tables of the VTMF instance hold `|q|` entries; `tmcg_mpz_fpowm` multiplies with
+  entry `i` for every set bit `i` of the exponent and the entries beyond `|q|` are zero.  An
+  exponent with `|q| + 1` bits therefore turns every card into `(0, 0)`: below, in the tiny group
+  (`|q| = 4`, exponent `16`), the SAME response answers both challenge bits of a round whose
+  commitment is the hash of two zero cards, although `s2` is not a re-masking of `s`
+  (`not_remasked23`).  So `stackeq_round_extract` is false for the original rule. -/
+
+/-- `verifyRound` without the range test of the exponents (the original code) -/
+def verifyRoundNoRange (H : Hash) (St : State) (s s2 : List Card) (cyclic : Bool)
+    (commit : Int) (b : Bool) (ss : StackSecret Int) : Except Err Bool := do
+  if ss.length ≠ s.length then return false
+  let s4 ← vtmfMix St false (if b then s2 else s) ss
+  if commitment H s4 ≠ commit then return false
+  if cyclic ∧ !isCyclic (ss.map Prod.fst) then return false
+  return true
+
+/-- the state the constructor and `KeyGenerationProtocol_Finalize` build for `h = 3` -/
+def St23 : State := { G := G23, tabG := ⟨[2, 4, 16, 3]⟩, tabH := ⟨[3, 9, 12, 6]⟩, h := 3 }
+
+theorem St23_ok : haveI := fact_prime valid23
+    StateOk G23 St23 := by
+  have := fact_prime valid23
+  have hm := mem23 3 (by decide)
+  exact ⟨rfl, (show precompute 2 23 (tableLen G23) = .ok ⟨[2, 4, 16, 3]⟩ by decide),
+    (show precompute 3 23 (tableLen G23) = .ok ⟨[3, 9, 12, 6]⟩ by decide), ⟨hm.1, hm.2.1⟩, hm.2.2⟩
+
+example (H : Hash) (b : Bool) :
+    verifyRoundNoRange H St23 [⟨1, 1⟩, ⟨1, 1⟩] [⟨1, 2⟩, ⟨1, 2⟩] true
+      (commitment H [⟨0, 0⟩, ⟨0, 0⟩]) b [(0, 16), (1, 16)] = .ok true ∧
+    (haveI := fact_prime valid23
+     ¬ Remasked G23 St23 true [⟨1, 1⟩, ⟨1, 1⟩] [⟨1, 2⟩, ⟨1, 2⟩]) := by
+  refine ⟨?_, not_remasked23 St23_ok true⟩
+  have h1 : vtmfMix St23 false [⟨1, 1⟩, ⟨1, 1⟩] [(0, 16), (1, 16)] = .ok [⟨0, 0⟩, ⟨0, 0⟩] := by
+    decide
+  have h2 : vtmfMix St23 false [⟨1, 2⟩, ⟨1, 2⟩] [(0, 16), (1, 16)] = .ok [⟨0, 0⟩, ⟨0, 0⟩] := by
+    decide
+  have hc : isCyclic (([(0, 16), (1, 16)] : StackSecret Int).map Prod.fst) = true := by decide
+  unfold verifyRoundNoRange
+  cases b
+  · simp [h1, hc, bind, Except.bind, pure, Except.pure]
+  · simp [h2, hc, bind, Except.bind, pure, Except.pure]
+
+#print axioms mix_glue
+#print axioms stackeq_round_extract
+#print axioms stackeq_soundness_bound
+#print axioms stackeq_soundness_prob
+#print axioms stackeq_complete
+#print axioms not_remasked23
+#print axioms St23_ok
 
 end Tmcg.CutChoose
